@@ -88,6 +88,7 @@ type gate struct {
 	opens   int // OpenLTXFile calls of the current poll
 	idle    int // consecutive completed polls without an OpenLTXFile
 	done    bool
+	mixed   bool
 	cancel  context.CancelFunc
 	log     *os.File
 	clients map[int]*file.ReplicaClient
@@ -111,6 +112,10 @@ func (g *gate) client(v int) *file.ReplicaClient {
 func (g *gate) viewNow() int {
 	e := g.plan[g.cur]
 	if e.mid > 0 && e.polls > 0 && g.nPoll == e.polls && g.nCall >= e.mid && g.cur+1 < len(g.plan) {
+		if g.polling && !g.mixed && g.plan[g.cur+1].view != e.view {
+			g.mixed = true
+			g.line(map[string]any{"ev": "mixed"})
+		}
 		return g.plan[g.cur+1].view
 	}
 	return e.view
@@ -135,7 +140,7 @@ func (g *gate) finish() {
 	g.cancel()
 }
 
-// pollStart: the level-0 listing with a seek position is the first client call of applyNewLTXFiles (replica.go:872).
+// pollStart: the level-0 listing with a seek position is the first client call of applyNewLTXFiles (replica.go:879).
 func (g *gate) pollStart() {
 	if g.polling {
 		if g.opens == 0 {
@@ -168,11 +173,11 @@ func (g *gate) pollStart() {
 	}
 	g.polling = true
 	g.nPoll++
-	g.nCall, g.opens = 0, 0
+	g.nCall, g.opens, g.mixed = 0, 0, false
 	g.line(map[string]any{"ev": "poll", "view": g.plan[g.cur].view, "side": readSide(g.out)})
 }
 
-func (g *gate) Type() string                  { return "file" }
+func (g *gate) Type() string                   { return "file" }
 func (g *gate) Init(ctx context.Context) error { return nil }
 func (g *gate) SetLogger(l *slog.Logger)       {}
 func (g *gate) DeleteAll(ctx context.Context) error {
@@ -288,47 +293,54 @@ type FCase struct {
 	Sched  [][]any     `json:"sched"`
 	Follow []Sess      `json:"follow"`
 	Kill   *KillSpec   `json:"kill"`
+	// ResetL0: put DB.L0Retention back to its default after an explicit L0Retention step, so that later compactions do
+	// not prune level 0 on their own (cases derived from Replica.tla, where level-0 retention is its own action)
+	ResetL0 bool `json:"resetL0"`
 }
 
 type Poll struct {
-	View  int     `json:"view"`
-	Side  int     `json:"side"`  // sidecar on disk when the poll started (= the follower's position)
-	Files [][]int `json:"files"` // files opened by this poll, in order: [level, min, max, opened ok (1/0)]
+	View      int     `json:"view"`
+	Side      int     `json:"side"`      // sidecar on disk when the poll started (= the follower's position)
+	Files     [][]int `json:"files"`     // files opened by this poll, in order: [level, min, max, opened ok (1/0)]
+	ViewFiles [][]int `json:"viewFiles"` // listing of the view this poll was served from
+	Mixed     bool    `json:"mixed"`     // the view changed in the middle of this poll
 }
 
 type Obs struct {
-	T          int        `json:"t"`
-	I          int        `json:"i"`
-	Kind       string     `json:"kind"`  // sess | kill | sys
-	Start      string     `json:"start"` // fresh | resume
-	SidePre    int        `json:"sidePre"`
-	DbPre      bool       `json:"dbPre"`
-	Polls      []Poll     `json:"polls"`
-	Rest       [][]int    `json:"rest"` // files opened by the initial restore
-	Err        string     `json:"err"`  // none | ahead | behind | nosidecar | other | timeout | died
-	ErrMsg     string     `json:"errMsg"`
-	Exit       string     `json:"exit"` // stop | killed | error
-	SideAfter  int        `json:"sideAfter"`
-	Quiescent  bool       `json:"quiescent"`
-	StartView  int        `json:"startView"`
-	StartFiles [][]int    `json:"startFiles"` // [level, min, max] of the first served view
-	EndView    int        `json:"endView"`
-	EndFiles   [][]int    `json:"endFiles"`
-	EndMax     int        `json:"endMax"`
-	OrdOK      bool       `json:"ordOK"` // ordinary restore of the last served view
-	OrdTx      int        `json:"ordTx"`
-	OrdErr     string     `json:"ordErr"`
-	OrdPg      []int      `json:"ordPg"`
-	FExists    bool       `json:"fExists"`
-	FPg        []int      `json:"fPg"`
-	KillAt     int        `json:"killAt"`
-	KillSys    string     `json:"killSys"`
-	SideKill   int        `json:"sideKill"` // sidecar right after the kill
-	DbKill     bool       `json:"dbKill"`   // output database existed right after the kill
-	TmpLeft    int        `json:"tmpLeft"`
-	Sys        [][]string `json:"sys"` // kind sys: [name, file] of every counted call (file: db | db.tmp | side | side.tmp | dir | other)
-	NCalls     int        `json:"nCalls"`
-	Label      string     `json:"label"`
+	T           int        `json:"t"`
+	I           int        `json:"i"`
+	Kind        string     `json:"kind"`     // sess | kill | sys
+	Start       string     `json:"start"`    // fresh | resume
+	SidePre     int        `json:"sidePre"`  // sidecar when this process started
+	SidePre0    int        `json:"sidePre0"` // kind kill: sidecar before the killed session began (else = sidePre)
+	DbPre       bool       `json:"dbPre"`
+	Polls       []Poll     `json:"polls"`
+	Rest        [][]int    `json:"rest"` // files opened by the initial restore
+	Err         string     `json:"err"`  // none | ahead | behind | nosidecar | other | timeout | died
+	ErrMsg      string     `json:"errMsg"`
+	Exit        string     `json:"exit"` // stop | killed | error
+	SideAfter   int        `json:"sideAfter"`
+	Quiescent   bool       `json:"quiescent"`
+	StartView   int        `json:"startView"`
+	StartFiles  [][]int    `json:"startFiles"` // [level, min, max] of the first served view
+	EndView     int        `json:"endView"`
+	EndFiles    [][]int    `json:"endFiles"`
+	EndMax      int        `json:"endMax"`
+	OrdOK       bool       `json:"ordOK"` // ordinary restore of the last served view
+	OrdTx       int        `json:"ordTx"`
+	OrdErr      string     `json:"ordErr"`
+	OrdPg       []int      `json:"ordPg"`
+	FExists     bool       `json:"fExists"`
+	FPg         []int      `json:"fPg"`
+	KillAt      int        `json:"killAt"`
+	KillSys     string     `json:"killSys"`
+	SideKill    int        `json:"sideKill"` // sidecar right after the kill
+	DbKill      bool       `json:"dbKill"`   // output database existed right after the kill
+	TmpLeft     int        `json:"tmpLeft"`
+	Sys         [][]string `json:"sys"` // kind sys: [name, file] of every counted call (file: db | db.tmp | side | side.tmp | dir | other)
+	NCalls      int        `json:"nCalls"`
+	RestartPoll int        `json:"restartPoll"` // kind kill: number of polls logged before the kill
+	Label       string     `json:"label"`
 }
 
 func blankObs(c FCase, i int, kind string) Obs {
@@ -404,7 +416,7 @@ func listView(dir string) [][]int {
 }
 
 // maskedPages: page ids of a database file with the bytes follow mode rewrites on page 1 zeroed
-// (replica.go:977-980: 18-19 journal mode, 24-27 schema change counter).
+// (replica.go:984-987: 18-19 journal mode, 24-27 schema change counter).
 func maskedPages(path string, ps int, d *core.Dict, mu *sync.Mutex) ([]int, bool) {
 	b, err := os.ReadFile(path)
 	if err != nil {
@@ -534,7 +546,11 @@ func readChildLog(path string) childLog {
 				cl.view0 = num("view")
 			}
 		case "poll":
-			cl.polls = append(cl.polls, Poll{View: num("view"), Side: num("side"), Files: [][]int{}})
+			cl.polls = append(cl.polls, Poll{View: num("view"), Side: num("side"), Files: [][]int{}, ViewFiles: [][]int{}})
+		case "mixed":
+			if len(cl.polls) > 0 {
+				cl.polls[len(cl.polls)-1].Mixed = true
+			}
 		case "open":
 			ok := 0
 			if b, _ := m["ok"].(bool); b {
@@ -623,6 +639,9 @@ func tmpLeft(fdir string) int {
 func (cr *caseRun) observe(o *Obs, fdir string, s Sess, cl childLog, si supInfo) {
 	out := filepath.Join(fdir, "db")
 	o.Polls, o.Rest = cl.polls, cl.rest
+	for k := range o.Polls {
+		o.Polls[k].ViewFiles = listView(cr.viewDir(o.Polls[k].View))
+	}
 	o.Err, o.ErrMsg = cl.err, cl.msg
 	switch {
 	case si.Exit == 128+9 || (s.End == "kill" && !cl.exited):
@@ -724,6 +743,7 @@ func (cr *caseRun) session(fdir string, idx int, s Sess, kind string, n int, seq
 	_, e := os.Stat(out)
 	o.DbPre = e == nil
 	o.SidePre = readSide(out)
+	o.SidePre0 = o.SidePre
 	o.Start = "fresh"
 	if o.DbPre {
 		o.Start = "resume"
@@ -775,6 +795,9 @@ func (cr *caseRun) run(emit func(Obs)) (err error) {
 			r.Step([]any{"AppReclaim"}, false)
 		default:
 			r.Step(st, false)
+			if op == "L0Retention" && c.ResetL0 && r.LS() != nil {
+				r.LS().L0Retention = litestream.DefaultL0Retention
+			}
 		}
 	}
 	if r.LsUp() {
@@ -902,10 +925,10 @@ func (cr *caseRun) run(emit func(Obs)) (err error) {
 					return
 				}
 				ro.KillAt, ro.KillSys, ro.SideKill, ro.DbKill, ro.TmpLeft = i, kb, sideKill, e == nil, tl
-				ro.SidePre = ko.SidePre // sidecar before the killed session began
+				ro.SidePre0 = ko.SidePre // sidecar before the killed session began
 				// polls of the killed session come first: the sidecar sequence runs across the restart
 				ro.Polls = append(append([]Poll{}, ko.Polls...), ro.Polls...)
-				ro.NCalls = len(ko.Polls) // index of the first poll after the restart
+				ro.RestartPoll = len(ko.Polls)
 				emit(ro)
 			}(i)
 		}
